@@ -176,29 +176,36 @@ def _holdout(h, t):
     return theory_ext.FrameMatrix(fr)
 
 
+def nonparametric_aggregate_run(h, keys, alpha=0.9):
+    """world + the client's sequence on ONE nonparametric model object: aggregate predictions first, then the aggregate
+    intervals (shared by the proof units and the conformance driver bounded/conformance_aggregates.py)"""
+    lo_s, up_s = f"lower_{alpha}_turnout", f"upper_{alpha}_turnout"
+    t = Three(h, "turnout", int_extra=(lo_s, up_s, "pred_turnout"))
+    lo_u, up_u = t.nonrep.col(lo_s).t, t.nonrep.col(up_s).t
+    # what add_unit_intervals wrote on the other two frames (proved in unit `model_results`)
+    for f_ in (t.rep, t.third):
+        f_.cols[lo_s] = f_.cols["results_turnout"]
+        f_.cols[up_s] = f_.cols["results_turnout"]
+        f_.cols["pred_turnout"] = f_.cols["results_turnout"]
+    # unit-level postconditions of get_unit_prediction_intervals (C03.nonparametric.unit_intervals)
+    h.requires("unit_bounds", z3.Implies(t.N, z3.And(lo_u >= t.res, up_u >= t.res)))
+    self = model(h, NP)
+    upi = NamedTuple("PredictionIntervals", ["lower", "upper", "conformalization"], [None, None, "conformalization-data"])
+    k1, est = h.call_method(self, "get_aggregate_predictions", t.rep, t.nonrep, t.third, list(keys), "turnout")
+    if k1 == "raise":
+        return t, lo_u, up_u, self, k1, est, None, None
+    kind, res = h.call_method(self, "get_aggregate_prediction_intervals", t.rep, t.nonrep, t.third, list(keys), alpha, upi, "turnout")
+    return t, lo_u, up_u, self, k1, est, kind, res
+
+
 def _np_agg(aggname, keys):
     rp = lambda ev: {"target": "verif_replays:aggregate_replay", "args": [list(keys)], "check": "result['exc'] is None and result['ok']"}  # noqa: E731
 
     @unit("C03", f"nonparametric.aggregate_intervals.{aggname}", fns=[f"{NP}.get_aggregate_prediction_intervals", f"{BASE}._get_reporting_aggregate_votes"])
     def agg(h):
-        alpha = 0.9
-        lo_s, up_s = f"lower_{alpha}_turnout", f"upper_{alpha}_turnout"
-        t = Three(h, "turnout", int_extra=(lo_s, up_s, "pred_turnout"))
-        lo_u, up_u = t.nonrep.col(lo_s).t, t.nonrep.col(up_s).t
-        # what add_unit_intervals wrote on the other two frames (proved in unit `model_results`)
-        for f_ in (t.rep, t.third):
-            f_.cols[lo_s] = f_.cols["results_turnout"]
-            f_.cols[up_s] = f_.cols["results_turnout"]
-            f_.cols["pred_turnout"] = f_.cols["results_turnout"]
-        # unit-level postconditions of get_unit_prediction_intervals (C03.nonparametric.unit_intervals)
-        h.requires("unit_bounds", z3.Implies(t.N, z3.And(lo_u >= t.res, up_u >= t.res)))
-        self = model(h, NP)
-        upi = NamedTuple("PredictionIntervals", ["lower", "upper", "conformalization"], [None, None, "conformalization-data"])
-        # the client's sequence on ONE model object: aggregate predictions first, then the intervals
-        kind, est = h.call_method(self, "get_aggregate_predictions", t.rep, t.nonrep, t.third, list(keys), "turnout")
-        if kind == "raise":
+        t, lo_u, up_u, self, k1, est, kind, res = nonparametric_aggregate_run(h, keys)
+        if k1 == "raise":
             return h.fail("predictions.no_raise", f"raised {est}")
-        kind, res = h.call_method(self, "get_aggregate_prediction_intervals", t.rep, t.nonrep, t.third, list(keys), alpha, upi, "turnout")
         if kind == "raise":
             return h.fail("no_raise", f"raised {res}")
         lower, upper = res.lower, res.upper
